@@ -62,6 +62,14 @@ class AbstractOnlineResetVisitor(AbstractAstVisitor):
 class AbstractOnlineUpdateVisitor(AbstractAstVisitor):
     def __init__(self):
         self.results = dict()
+        self.stepped = dict()
+
+    def visitAst(self, ast, *args, **kwargs):
+        # One update step. Operations are keyed by the printed node name, so a sub-formula
+        # that occurs several times (or a referenced sub-specification) shares one stateful
+        # operation: step it once per update and reuse its output for the other occurrences.
+        self.stepped = dict()
+        return super(AbstractOnlineUpdateVisitor, self).visitAst(ast, *args, **kwargs)
 
     def visitSpec(self, node, online_operator_dict, var_object_dict):
         sample_return = self.visit(node, online_operator_dict, var_object_dict)
@@ -70,18 +78,26 @@ class AbstractOnlineUpdateVisitor(AbstractAstVisitor):
         return sample_return
 
     def visitBinary(self, node, online_operator_dict, var_object_dict):
+        if node.name in self.stepped:
+            self.results[node] = self.stepped[node.name]
+            return self.stepped[node.name]
         sample_left  = self.visit(node.children[0], online_operator_dict, var_object_dict)
         sample_right = self.visit(node.children[1], online_operator_dict, var_object_dict)
         operator = online_operator_dict[node.name]
         sample_return = operator.update(sample_left, sample_right)
         self.results[node] = sample_return
+        self.stepped[node.name] = sample_return
         return sample_return
 
     def visitUnary(self, node, online_operator_dict, var_object_dict):
+        if node.name in self.stepped:
+            self.results[node] = self.stepped[node.name]
+            return self.stepped[node.name]
         sample = self.visit(node.children[0], online_operator_dict, var_object_dict)
         op = online_operator_dict[node.name]
         sample_return = op.update(sample)
         self.results[node] = sample_return
+        self.stepped[node.name] = sample_return
         return sample_return
 
     def visitLeaf(self, node, online_operator_dict, var_object_dict):
